@@ -33,6 +33,10 @@ CLAIMED = {
          "Model checking of the condition-holder state machine (merge / wrap / single-member unwrapping rules, to_simple_expr fold, parenthesis dropping) against a Kleene-logic definition of what the supplied conditions mean, plus trace validation of the real code on every enumerated history and random deeper ones, at every step of the history and in seven clause positions; on SQLite the rendered statement is executed over a table holding all 27 assignments and the returned rows must be the demanded ones.",
          "Trusted: TLC; Kleene semantics of AND/OR/NOT/=/<>/IS; the expression parser of C05; SQLite engine.",
          "§5 C06, Appendix A"),
+ "C10": ("src/query/insert.rs as a TLA+ state machine (columns / source / default_values; one action per public call); TLC explores every call history up to the tier's length with an invariant on Results, an action property on rejected calls and a rendering-vs-accepted-rows check; all histories are replayed step by step on the real InsertStatement and validated by TLC against the property-level reading of the history",
+         "Model checking of the insert builder over all call sequences (23 actions, length <= 3 quick / <= 4 thorough) and trace validation of the real builder on the same histories plus random longer ones: per step the Result (both counts), `stmt == clone` after a rejection, and the parsed VALUES list of all three renderings against the rows the history has had accepted.",
+         "Trusted: TLC; the INSERT parser of Insert.tla. Known findings: columns() re-declared after rows; zero-column rows (see known_findings.json).",
+         "§5 C10"),
 }
 NA = {
  "C20": "Type-level fact about Rust auto-traits decided only by rustc's trait solver; no state, transition or observable behaviour to model or trace (DESIGN.md §5 C20).",
